@@ -389,6 +389,15 @@ impl<'source> Iterator for Lexer<'source> {
                 | Some((Err(()), range)) => {
                     break Some((range.start, Tok::Unknown(self.inner.slice()), range.end));
                 }
+                | None if self.comment_depth > 0 => {
+                    // The input ended inside a block comment. Report the unterminated
+                    // opener to the grammar instead of accepting what preceded it:
+                    // the author may well have closed the comment in a way the lexer
+                    // does not see (`-- -/`, `word-/`, an odd `"`).
+                    self.comment_depth = 0;
+                    let end = self.inner.source().len();
+                    break Some((end, Tok::CommentOpen, end));
+                }
                 | None => break None,
             }
         }
